@@ -140,6 +140,68 @@ def module_level_stateful_instances(py: PyRepo, only_modules=None):
     return out
 
 
+def module_state_writes(py: PyRepo, only_modules=None):
+    """(module, function, global, node) for every write into a module-level mutable object from a function"""
+    out = []
+    for mname, mi in py.modules.items():
+        if only_modules is not None and mname not in only_modules:
+            continue
+        mutable_globals = {}
+        for st in mi.tree.body:
+            tgt = st.targets[0] if isinstance(st, ast.Assign) else (st.target if isinstance(st, ast.AnnAssign) else None)
+            val = getattr(st, 'value', None)
+            if isinstance(tgt, ast.Name) and val is not None and (isinstance(val, (ast.List, ast.Dict, ast.Set)) or (
+                    isinstance(val, ast.Call) and isinstance(val.func, ast.Name) and val.func.id in MUTABLE_CTORS)):
+                mutable_globals[tgt.id] = val
+        funcs = [(f.name, f) for f in mi.functions.values()] + [(f'{c.name}.{f.name}', f) for c in mi.classes.values() for f in c.methods.values()]
+        for qn, fn in funcs:
+            local = {a.arg for a in fn.args.args} | {n_.id for n_ in ast.walk(fn) if isinstance(n_, ast.Name) and isinstance(n_.ctx, ast.Store)}
+            declared_global = {nm for n_ in ast.walk(fn) if isinstance(n_, ast.Global) for nm in n_.names}
+            for node in ast.walk(fn):
+                if isinstance(node, ast.Call) and isinstance(node.func, ast.Attribute) and isinstance(node.func.value, ast.Name):
+                    g = node.func.value.id
+                    if g in mutable_globals and (g not in local or g in declared_global) and node.func.attr in (
+                            'append', 'extend', 'add', 'update', 'pop', 'clear', 'setdefault', 'insert', 'remove', '__setitem__'):
+                        out.append((mname, qn, g, node))
+                if isinstance(node, (ast.Assign, ast.AugAssign)):
+                    for t in (node.targets if isinstance(node, ast.Assign) else [node.target]):
+                        if isinstance(t, ast.Subscript) and isinstance(t.value, ast.Name) and t.value.id in mutable_globals \
+                                and (t.value.id not in local or t.value.id in declared_global):
+                            out.append((mname, qn, t.value.id, node))
+    return out
+
+
+def shared_class_state(py: PyRepo, only_classes=None):
+    """class-level mutable attributes (plain or annotated) that are mutated through instances and not shadowed in __init__"""
+    out = []
+    for mname, mi in py.modules.items():
+        for c in mi.classes.values():
+            if only_classes is not None and c.name not in only_classes:
+                continue
+            for node in c.node.body:
+                tgt = node.targets[0] if isinstance(node, ast.Assign) else (node.target if isinstance(node, ast.AnnAssign) else None)
+                if isinstance(tgt, ast.Name) and getattr(node, 'value', None) is not None:
+                    v = node.value
+                    if isinstance(v, (ast.List, ast.Dict, ast.Set)) or (isinstance(v, ast.Call) and isinstance(v.func, ast.Name) and v.func.id in MUTABLE_CTORS):
+                        attr = tgt.id
+
+                        def _is_attr(e, attr=attr):
+                            return isinstance(e, ast.Attribute) and e.attr == attr
+                        written = any(
+                            (isinstance(x, ast.Call) and isinstance(x.func, ast.Attribute) and _is_attr(x.func.value)
+                             and x.func.attr in ('append', 'add', 'update', 'extend', 'setdefault', 'pop', 'clear', 'insert', 'remove', 'discard'))
+                            or (isinstance(x, (ast.Assign, ast.AugAssign, ast.Delete)) and any(
+                                isinstance(t, ast.Subscript) and _is_attr(t.value)
+                                for t in (x.targets if isinstance(x, (ast.Assign, ast.Delete)) else [x.target])))
+                            for f in c.methods.values() for x in ast.walk(f))
+                        shadowed = any(isinstance(x, (ast.Assign, ast.AnnAssign)) and any(
+                            isinstance(t, ast.Attribute) and t.attr == attr for t in (x.targets if isinstance(x, ast.Assign) else [x.target]))
+                            for f in c.methods.values() if f.name == '__init__' for x in ast.walk(f))
+                        if written and not shadowed:
+                            out.append((mname, c, attr, node))
+    return out
+
+
 def cross_run_state(ctx, py: PyRepo):
     """mutable default arguments; module-level mutable objects written from functions; class-level mutable attributes written through instances"""
     n = 0
@@ -182,31 +244,11 @@ def cross_run_state(ctx, py: PyRepo):
                         if isinstance(t, ast.Name) and t.id in declared_global:
                             n += 1
                             ctx.ob('cross-run-state', f'{mname}.{qn}:{t.id}', False, f'{qn} rebinds the global `{t.id}`', py.where(mname, node))
-        # class-level mutable attributes (shared by all instances)
-        for c in mi.classes.values():
-            for node in c.node.body:
-                tgt = node.targets[0] if isinstance(node, ast.Assign) else (node.target if isinstance(node, ast.AnnAssign) else None)
-                if isinstance(tgt, ast.Name) and getattr(node, 'value', None) is not None:
-                    v = node.value
-                    if isinstance(v, (ast.List, ast.Dict, ast.Set)) or (isinstance(v, ast.Call) and isinstance(v.func, ast.Name) and v.func.id in MUTABLE_CTORS):
-                        attr = tgt.id
-
-                        def _is_attr(e):
-                            return isinstance(e, ast.Attribute) and e.attr == attr
-                        written = any(
-                            (isinstance(x, ast.Call) and isinstance(x.func, ast.Attribute) and _is_attr(x.func.value)
-                             and x.func.attr in ('append', 'add', 'update', 'extend', 'setdefault', 'pop', 'clear', 'insert', 'remove', 'discard'))
-                            or (isinstance(x, (ast.Assign, ast.AugAssign, ast.Delete)) and any(
-                                isinstance(t, ast.Subscript) and _is_attr(t.value)
-                                for t in (x.targets if isinstance(x, (ast.Assign, ast.Delete)) else [x.target])))
-                            for f in c.methods.values() for x in ast.walk(f))
-                        shadowed = any(isinstance(x, ast.Assign) and any(isinstance(t, ast.Attribute) and t.attr == attr for t in x.targets)
-                                       for f in c.methods.values() if f.name == '__init__' for x in ast.walk(f))
-                        if written and not shadowed:
-                            n += 1
-                            ctx.ob('cross-run-state', f'{mname}.{c.name}.{attr}', False,
-                                   f'class attribute {c.name}.{attr} is a mutable object shared by all instances and is mutated through them',
-                                   py.where(mname, node))
+    for mname, c, attr, node in shared_class_state(py):
+        n += 1
+        ctx.ob('cross-run-state', f'{mname}.{c.name}.{attr}', False,
+               f'class attribute {c.name}.{attr} is a mutable object shared by all instances and is mutated through them',
+               py.where(mname, node))
     # module-level (import-time) instances of classes whose methods mutate their own attributes: one object shared by every run
     for mname, node, cname, attrs in module_level_stateful_instances(py):
         n += 1
